@@ -12,3 +12,4 @@ import PC.Props.C12
 import PC.Props.C18
 import PC.Props.C11
 import PC.Props.C17
+import PC.Props.C13
